@@ -1187,6 +1187,9 @@ func (r *RecProvider) fail() bool {
 // FailNext makes the next provider call fail cleanly.
 func (r *RecProvider) FailNext() { r.FailAt = r.n + 1 }
 
+// FailNth makes the k-th provider call from now on fail cleanly.
+func (r *RecProvider) FailNth(k int) { r.FailAt = r.n + k }
+
 func (r *RecProvider) AssignIP(in *rpc.AssignIPRequest) (*rpc.AssignIPReply, error) {
 	coop.Point("cloud", "assign "+in.IPAddress+"->"+in.NodeName)
 	defer r.w.freeLock()()
